@@ -4834,6 +4834,11 @@ impl<'a, 'graph> Builder<'a, 'graph> {
 
       if self.state.pending.is_empty() {
         if !self.state.deferred.is_empty() {
+          #[cfg(feature = "verif_hooks")]
+          crate::verif_hooks::VerifDrainOrder::verif_force_drain_order(
+            &mut self.state.deferred,
+            "deferred",
+          );
           let items = std::mem::take(&mut self.state.deferred);
           for (specifier, item) in items {
             self.load(LoadOptionsRef {
@@ -5144,6 +5149,11 @@ impl<'a, 'graph> Builder<'a, 'graph> {
     //   visiting a dynamic branch.
     if !self.in_dynamic_branch {
       self.in_dynamic_branch = true;
+      #[cfg(feature = "verif_hooks")]
+      crate::verif_hooks::VerifDrainOrder::verif_force_drain_order(
+        &mut self.state.dynamic_branches,
+        "dynamic_branches",
+      );
       for (specifier, dynamic_branch) in
         std::mem::take(&mut self.state.dynamic_branches)
       {
